@@ -66,6 +66,11 @@ Proof. exact data_eos_spec. Qed.
 Theorem C06_pack_unpack : forall marker v rest, (forall j, j < blen v -> ~ occurs_at marker (v ++ marker) j) ->
   data_marker (data_pack v marker ++ rest) 0 None marker false = Some (v, blen v + blen marker).
 Proof. exact data_pack_unpack_marker'. Qed.
+(* ... whatever the bytes of the value are: a value that already ends with the delimiter (or contains it) is followed by one more *)
+Theorem C06_pack_exact : forall v marker, data_pack v marker = v ++ marker /\ blen (data_pack v marker) = blen v + blen marker.
+Proof. intros v marker. split; [reflexivity | unfold data_pack, blen; rewrite app_length, Nat2Z.inj_add; reflexivity]. Qed.
+Example C06_pack_value_ending_with_marker : data_pack [7; 13; 10] [13; 10] = [7; 13; 10; 13; 10] /\ data_pack [0] [0] = [0; 0].
+Proof. vm_compute. split; reflexivity. Qed.
 
 Example C06_example :
   find [1; 1; 2] [1; 2] = Some 1 /\ data_marker [9; 1; 2; 3] 0 (Some 2) [1; 2] false = None /\
@@ -73,6 +78,7 @@ Example C06_example :
   re_search [ALit [1; 2]; APlus 1] [3; 1; 1; 2] = Some (1, 3) /\ data_sized [1; 2] 0 (-1) = None.
 Proof. vm_compute. repeat split; reflexivity. Qed.
 
+Print Assumptions C06_pack_exact.
 Print Assumptions C06_sized.
 Print Assumptions C06_sized_complete.
 Print Assumptions C06_sized_negative.
